@@ -308,6 +308,9 @@ OUTSIDE_MODEL = {
     "C04j": "cancel finds the order by an identity scan instead of `in`: the membership test the removal rule is anchored in is gone; whether identity is good enough depends on who may build a Cancel, which is not in the code",
     "C13j": "hook selection memoised per hook point with invalidation in _add_event (as C15f): a selection that reads a cache is not the modelled `hooks[None] ++ hooks[time]`",
     "C01k": "comparator extended by a priority class compared before the price: `priority` is not an atom of the order-only model (the default value makes it invisible, which the table cannot know)",
+    "C03f": "reaper rebuilds the queue by a filter over a list left over from the bucket loop: the rules trace single removals (`remove(order)`) to their bucket, a rebuilt queue is not modelled (the first version of the rule reported it for the wrong reason: no remove call found)",
+    "C01m": "comparator works on a price sign cached at construction: `_price_sign` is not an atom of the order-only model (that it can go stale when the side is rewritten before acceptance is a fact about other code)",
+    "C04n": "heap deletion by moving the last leaf into the hole with an off-by-one bound on the index: arithmetic on positions in the heap array, not shape",
 }
 
 # --------------------------------------------------------------------------- seeded patches
